@@ -35,6 +35,7 @@ pub fn run_case(lines: &[Vec<String>], o: &mut Out) {
     let mut nodes: Vec<Arc<Node<i64, i64>>> = vec![];
     let mut edges: Vec<Arc<Edge<i64, i64>>> = vec![];
     let mut g: Option<G> = None;
+    let mut readd: Vec<i64> = vec![];
     for l in lines {
         let mut t = Toks::new(l);
         match t.s() {
@@ -55,10 +56,19 @@ pub fn run_case(lines: &[Vec<String>], o: &mut Out) {
                     edges.push(Arc::new(Edge { u, v, attributes: None, weight: dec_w(wf, w) }));
                 }
             }
+            // existing nodes re-added after the edges (add_node on an existing name only updates its attributes)
+            "readd" => readd = t.rest_i(),
             "call" => {
                 if g.is_none() {
-                    let (ns, es, sp) = (nodes.clone(), edges.clone(), specs.clone());
-                    let r = guard(move || G::new_from_nodes_and_edges(ns, es, sp));
+                    let (ns, es, sp, ra) = (nodes.clone(), edges.clone(), specs.clone(), readd.clone());
+                    let r = guard(move || {
+                        G::new_from_nodes_and_edges(ns, es, sp).map(|mut h| {
+                            for x in &ra {
+                                h.add_node(Arc::new(Node { name: *x, attributes: Some(7) }));
+                            }
+                            h
+                        })
+                    });
                     o.obs(1, &[vec![res_code(&r)]], &[]);
                     match r {
                         Some(Ok(h)) => g = Some(h),
